@@ -34,6 +34,27 @@ def explicit(tier, seed):
                     yield {"label": "due-now-park|%s|t%s|%s" % (kind, timeout, extra), "prog": {"body": [node, {"k": "step", "val": "end"}]},
                            "prog_seed": 21000 + i, "pattern": {"p": "plain"}, "holds": holds, "opts": opts, "max_inv": 30}
                     i += 1
+    # parked branches combined with failing / succeeding branches under tolerant completion configs, finish order forced by gates:
+    # the decision to suspend must be re-evaluated whichever branch event comes last
+    for cfg in ({"tol_n": 1}, {"tol_n": 2}, {"tol_pct": 60}, {"min_ok": 2, "tol_n": 1}, {"preset": "all_completed"}, {"min_ok": 3}):
+        for parked in ("cb", "wait", "invoke"):
+            for last in ("fail", "ok", "parked"):
+                if tier == "quick" and rng.random() < 0.4:
+                    continue
+                pk = {"cb": {"k": "cb"}, "wait": {"k": "wait", "s": 30}, "invoke": {"k": "invoke", "fn": "f", "payload": 1}}[parked]
+                failing = {"k": "step", "script": [{"do": "fail", "cls": "ValueError", "msg": "x", "gate": "gf"}], "retry": {"kind": "preset", "name": "none"}}
+                okstep = {"k": "step", "script": [{"do": "ok", "val": 1, "gate": "go"}]}
+                brs = [{"body": [{"k": "step", "val": 0}, pk, {"k": "step", "val": "after-park"}]}, {"body": [failing]}, {"body": [okstep]}]
+                node = {"k": "par", "branches": brs, "cfg": cfg}
+                parked_ev = {"event": {"kind": "susp", "path": "0/b0/1"}}
+                holds = []
+                if last == "fail":
+                    holds = [{"match": {"kind": "gate", "name": "gf"}, "until": {"all": [parked_ev, {"event": {"kind": "fn_exit", "fnkind": "branch", "path": "0/b2"}}]}, "delay_ms": 3}]
+                elif last == "ok":
+                    holds = [{"match": {"kind": "gate", "name": "go"}, "until": {"all": [parked_ev, {"event": {"kind": "fn_exit", "fnkind": "branch", "path": "0/b1"}}]}, "delay_ms": 3}]
+                yield {"label": "park+tolerated-failure|%s|last-%s" % (parked, last), "prog": {"body": [node, {"k": "step", "val": "end"}]},
+                       "prog_seed": 21300 + i, "pattern": {"p": "plain"}, "holds": holds, "opts": {"hang_s": 3.0, "idle_s": 0.6}, "max_inv": 20}
+                i += 1
     # retries whose timer has already passed, wait_for_condition with zero delay, timers fired one at a time / together
     for j in range(12 if tier == "quick" else 100):
         brs = []
